@@ -167,7 +167,9 @@ def generate(rng, index, tier):
         plan = scripted_plan(role, size, beh, seed=rng.getrandbits(32))
         plan['net'] = common.draw_net(rng)
         plan['prefix'] = rng.choice([0, 0, 0, 1, size // 2, size]) if role == 'uploader' else 0
-        if plan['prefix'] == size and role == 'uploader' and rng.random() < 0.5:
+        if plan['prefix'] == size and role == 'uploader' and rng.random() < 0.5 and \
+                not (beh.get('announce_delta') or beh.get('extra_len')):
+            # (with a sender that lies about the size "the remote file" is not defined well enough to judge a stale local file)
             plan['prefix_junk'] = rng.choice([1, 128, 5000])
         plan['mode'] = rng.choice(('race', 'fallback'))
         return plan
@@ -540,6 +542,8 @@ def _run_scripted(world: World, plan):
     size = plan['size']
     role = plan['role']
     beh = dict(plan.get('beh') or {})
+    if plan.get('prefix_junk') and (beh.get('announce_delta') or beh.get('extra_len')):
+        plan = dict(plan, prefix_junk=0)      # not judged together (see generate): older replays / shrunk plans
     source = pattern_bytes(size, 9)
     server = world.add_server()
     share_dir = world.sandbox.sub('alice', 'share')
